@@ -1165,7 +1165,8 @@ class Repr(EnvironmentFilter):
                     encoder = pipes.EncodeCatRows(self._cat_actions)
 
                     for row in rows:
-                        if row != prev_row:
+                        #equal categoricals may list their levels in different orders so equality alone doesn't make the encoding reusable
+                        if row is not prev_row and (row != prev_row or repr(row) != repr(prev_row)):
                             prev_row = row
                             prev_yield = list(encoder.filter(row))
                         yield prev_yield
